@@ -358,17 +358,21 @@ def r6_crossover_helpers(ctx):
     fn = F.fn(RF + "uniform_crossover")
     bad = []
     cnt = 0
-    for n in range(0, N + 1):
-        A, B = tuple(Sym("a%d" % i) for i in range(n)), tuple(Sym("b%d" % i) for i in range(n))
-        for mask in itertools.product((False, True), repeat=n):
+    # parents of equal and of different length (n1, n2), masks of every length the contract allows (<= both): the masked
+    # positions are exchanged, every other gene - the tails included - stays with its parent
+    shapes = [(n, n, n) for n in range(0, N + 1)] + [(3, 3, 1), (3, 3, 2), (4, 2, 2), (2, 3, 1), (3, 1, 0)]
+    for n1, n2, m in shapes:
+        A, B = tuple(Sym("a%d" % i) for i in range(n1)), tuple(Sym("b%d" % i) for i in range(n2))
+        for mask in itertools.product((False, True), repeat=m):
             cnt += 1
             st, h, ret = run_helper(F, fn, [Vec("p1", True), Vec("p2", True), Vec("mask", True)], {"p1": A, "p2": B, "mask": tuple(mask)}, RF)
             ch = _children(h, ret) if st == "return" else None
+            n = (n1, n2) if (n1 != n2 or m != n1) else n1
             if ch is None:
                 bad.append((n, list(mask), "does not return two children (%s)" % (h if st == "undecided" else st)))
                 continue
-            want1 = [("b%d" if mask[i] else "a%d") % i for i in range(n)]
-            want2 = [("a%d" if mask[i] else "b%d") % i for i in range(n)]
+            want1 = [("b%d" if (i < m and mask[i]) else "a%d") % i for i in range(n1)]
+            want2 = [("a%d" if (i < m and mask[i]) else "b%d") % i for i in range(n2)]
             if [tg(ch[0]), tg(ch[1])] != [want1, want2]:
                 bad.append((n, list(mask), "yields %s / %s; expected %s / %s" % (tg(ch[0]), tg(ch[1]), want1, want2)))
     ctx.check(not bad, "C13.R6", fn.key, "genes-conserved-per-position", "parents of length %s, mask %s: uniform_crossover %s" % (bad[0] if bad else ("", "", "")),
